@@ -71,7 +71,7 @@ func init() {
 		Assumptions: commonAssumptions})
 	describe(&PropertyDoc{ID: "C10",
 		Explanation: "Set-level clauses decided completely; string-level codec laws are not.",
-		Decides:     []string{"membership of the six named sets for all 0x110000 code points equals the standard's; byte and rune predicates agree (TAB-sets)", "default option sets are the standard's (TAB-defaults)", "deriving a set returns a fresh set and never writes its parent (EFF-derive, TAB-ctor)", "named sets and bitsets are never written after initialisation (EFF-globals)", "escapes use upper-case hex in every function that writes a '%' (TAB-hex)", "a decoder consumes as hex digits of an escape only positions a dominating hex-digit test covered (FLOW-hexpair)", "every decision 'a well-formed escape starts here' separates exactly 'three or more elements remain and both are hex digits' from everything else (FLOW-escvalid)", "the rune copy of a string is never indexed by a byte offset of that string (FLOW-units)", "in every encoder nothing reaches the result unencoded except under the set's own answer for that value; sub-encoders get the same set or a Set()-superset (FLOW-encgate)", "a percent-decoder hands its whole text only to a pure percent-decoder or to functions returning it or pieces of it (FLOW-decodeprov)"},
+		Decides:     []string{"membership of the six named sets for all 0x110000 code points equals the standard's; byte and rune predicates agree (TAB-sets)", "default option sets are the standard's (TAB-defaults)", "deriving a set returns a fresh set and never writes its parent (EFF-derive, TAB-ctor)", "named sets and bitsets are never written after initialisation (EFF-globals)", "escapes use upper-case hex in every function that writes a '%' (TAB-hex)", "a decoder consumes as hex digits of an escape only positions a dominating hex-digit test covered (FLOW-hexpair)", "every decision 'a well-formed escape starts here' separates exactly 'three or more elements remain and both are hex digits' from everything else (FLOW-escvalid)", "the rune copy of a string is never indexed by a byte offset of that string (FLOW-units)", "in every encoder nothing reaches the result unencoded except under the set's own answer for that value; sub-encoders get the same set or a Set()-superset (FLOW-encgate)", "a percent-decoder hands its whole text only to a pure percent-decoder or to functions returning it or pieces of it (FLOW-decodeprov)", "every text-driven loop of an encoder or decoder is left only by exhaustion or an error abort (FLOW-whole)"},
 		NotDecided:  []string{"string-level laws (idempotence, decode∘encode) beyond the encoder gating on the set predicate"},
 		Assumptions: commonAssumptions})
 	describe(&PropertyDoc{ID: "C11",
@@ -101,7 +101,7 @@ func init() {
 		Assumptions: commonAssumptions})
 	describe(&PropertyDoc{ID: "C16",
 		Explanation: "Option wiring: which option reaches which consumer under which trigger.",
-		Decides:     []string{"each With* constructor stores exactly its own field; constructors ↔ fields is a bijection (OPT-bij)", "NewParser / canonicalizer.New apply every option to a fresh object (OPT-apply)", "each option field is read only at its reviewed consumers (OPT-consumers)", "post-processing is exactly the unconditional setter call under exactly its flag (OPT-canon); default-scheme retry is guarded by missing-scheme ∧ scheme set (OPT-retry)", "profile and parser agree on parameter special cases (OPT-sibling); defaults are the standard's (TAB-defaults)", "only the options initialiser reads the package-level scheme table (OPT-schemetable)", "callback options are called through their field and the answer is used; on the arm taken only when percent-encode-single-percent-sign is on the encoder gets the component's set plus '%' (OPT-effect)", "profile.ParseRef parses the reference without the base only under rawUrl == \"\" (OPT-canonref)"},
+		Decides:     []string{"each With* constructor stores exactly its own field; constructors ↔ fields is a bijection (OPT-bij)", "NewParser / canonicalizer.New apply every option to a fresh object (OPT-apply)", "each option field is read only at its reviewed consumers (OPT-consumers)", "post-processing is exactly the unconditional setter call under exactly its flag (OPT-canon); default-scheme retry is guarded by missing-scheme ∧ scheme set (OPT-retry)", "profile and parser agree on parameter special cases (OPT-sibling); defaults are the standard's (TAB-defaults)", "only the options initialiser reads the package-level scheme table (OPT-schemetable)", "callback options are called through their field and the answer is used; on the arm taken only when percent-encode-single-percent-sign is on the encoder gets the component's set plus '%' (OPT-effect)", "profile.ParseRef parses the reference without the base only under rawUrl == \"\" (OPT-canonref)", "the encoder loop that implements the single-percent option cannot drop the rest of the text (FLOW-whole)"},
 		NotDecided:  []string{"conservative-extension claims that need value reasoning (collapsing //., literal U+FFFD vs invalid bytes)"},
 		Assumptions: commonAssumptions})
 	describe(&PropertyDoc{ID: "C18",
@@ -111,7 +111,7 @@ func init() {
 		Assumptions: commonAssumptions})
 	describe(&PropertyDoc{ID: "C19",
 		Explanation: "Caches cannot go stale, or do not exist, in every reachable state.",
-		Decides:     []string{"port and decodedPort are always stored together; address-kind accessors derive from the host; 'present' decisions test the primary's nil-ness (PAIR-group)", "default ports are the standard's (TAB-schemes)", "the only constant DecodedPort can hand out is 0 (PAIR-group)", "the default port comes from the table of the parser that made the URL (OPT-schemetable)", "the recogniser of dotted-decimal IPv4 text rejects for exactly: not four parts, a part longer than three digits, a part above 255 (TAB-thresholds)"},
+		Decides:     []string{"port and decodedPort are always stored together; address-kind accessors derive from the host; 'present' decisions test the primary's nil-ness (PAIR-group)", "default ports are the standard's (TAB-schemes)", "the only constant DecodedPort can hand out is 0 (PAIR-group)", "the default port comes from the table of the parser that made the URL (OPT-schemetable)", "the recogniser of dotted-decimal IPv4 text rejects for exactly: not four parts, a part longer than three digits, a part above 255 (TAB-thresholds)", "IsIPv6 / the IPv4 recogniser read the host with the delimiters the serializers write (PAIR-hostshape); a self-store does not keep a cache in step (PAIR-group)"},
 		NotDecided:  []string{"the rest of the textual definition of 'is a dotted-decimal IPv4 address' (digits only, no leading zero)"},
 		Assumptions: commonAssumptions})
 	describe(&PropertyDoc{ID: "C20",
